@@ -394,30 +394,96 @@ def run(ctx):
     # ---------------------------------------------------------------- 3. positive ack only on the empty result
     r3 = rep.rule('C07.3-ack-needs-empty-result', 'R-GUARD', 'the positive reply is produced only where *result == 0 with result defined by qmail_close (overrides are non-empty D texts)')
     sd = prog.fn('smtp_data', 'qmail-smtpd.c')
-    acc = sd.calls('acceptmessage')
-    if not acc:
-        raise AnalysisBroken('smtp_data: acceptmessage() not found')
-    for c in acc:
-        v = None
-        for cond, t in sd.guards(c) or []:
-            v = v or deref_zero_test(cond, t)
-        ds = defs_of(sd, v) if v else []
-        ok = bool(v) and len(ds) == 1 and ds[0].args[-1].strip().k == 'call' and ds[0].args[-1].strip().callee == 'qmail_close' and sd.dominates(ds[0], c)
-        r3.check(ok, 'smtpd:250-needs-empty-qmail_close', c.where, 'acceptmessage() not guarded by *qqx == 0 with qqx = qmail_close()')
-    for c in sd.calls('out'):
-        s = c.args[0].string or ''
-        r3.check(not s.startswith('2'), 'smtpd:no-other-2xx-in-smtp_data:%s' % s[:12].strip(), c.where, 'smtp_data emits a positive reply %r outside acceptmessage()' % s[:20])
-    am = prog.fn('acceptmessage', 'qmail-smtpd.c')
-    lits = [c.args[0].string for c in am.calls('out') if c.args[0].string]
-    r3.check(bool(lits) and lits[0].startswith('250'), 'smtpd:acceptmessage-says-250', am.unit + ':acceptmessage', 'acceptmessage() first output %r' % (lits[:1]))
-    # negative classes: hops -> 554, size -> 552, D -> 554, else 451
-    neg = {}
-    for c in sd.calls('out'):
-        s = c.args[0].string or ''
-        if s[:3].isdigit():
-            neg[s[:3]] = c
-    r3.check(set(neg) >= {'554', '552', '451'} and all(k[0] in '45' or k == '354' for k in neg), 'smtpd:negative-reply-classes', sd.unit + ':smtp_data',
-             'reply codes emitted by smtp_data: %s' % sorted(neg))
+    maxhops = db.unit('qmail-smtpd.c').macro_int('MAXHOPS')
+    if maxhops is None:
+        raise AnalysisBroken('MAXHOPS not found')
+
+    class AckHooks(QHooks):
+        """smtp_data() with blast() and the queue interface as events: the reply class for every combination of hop
+        count, size overflow and queue verdict"""
+        def __init__(self):
+            self.rows = []
+
+        def tracked_global(self, path):
+            return True
+
+        def precise_arith(self, path):
+            return True
+
+        def prim_qmail_open(self, E, x, args):
+            return [Outcome(ret=fs(0))]
+
+        def _n(self, E, x, args):
+            return [Outcome(ret=TOP)]
+
+        prim_qmail_qp = prim_received = prim_qmail_from = prim_qmail_to = prim_qmail_put = prim_qmail_puts = prim_flush = prim_fmt_ulong = prim_now = _n
+
+        def prim_blast(self, E, x, args):
+            hp = args[0]
+            hp = next(iter(hp)) if hp is not TOP and len(hp) == 1 else None
+            if not (isinstance(hp, tuple) and hp[0] == '&'):
+                raise AnalysisBroken('smtp_data: blast() is not handed the address of the hop counter')
+            outs = []
+            for h in (0, maxhops - 1, maxhops, maxhops + 50):
+                for over in (0, 1):
+                    st = {hp[1]: fs(h), '$hops': fs(h), '$over': fs(over)}
+                    if over:
+                        if g1(E, 'G:databytes') == 0:
+                            continue
+                        st['G:bytestooverflow'] = fs(0)
+                        st['$failed'] = fs(1)
+                    elif g1(E, 'G:databytes'):
+                        st['G:bytestooverflow'] = fs(3)
+                    outs.append(Outcome(ret=TOP, sets=st, log='message read: %d hops, size overflow=%d' % (h, over)))
+            return outs
+
+        def prim_qmail_fail(self, E, x, args):
+            E.set('$failed', fs(1))
+            return [Outcome(ret=TOP)]
+
+        def prim_qmail_close(self, E, x, args):
+            outs = [Outcome(ret=fs(('str', 'Dpolicy')), sets={'$qq': fs('D')}), Outcome(ret=fs(('str', 'Zbusy')), sets={'$qq': fs('Z')})]
+            if not g1(E, '$failed', 0):
+                outs.append(Outcome(ret=fs(('str', '')), sets={'$qq': fs('')}))
+            return outs
+
+        def prim_out(self, E, x, args):
+            v = args[0]
+            v = next(iter(v)) if v is not TOP and len(v) == 1 else None
+            if isinstance(v, tuple) and v[0] == 'str' and v[1][:3].isdigit() and v[1][:3] != '354' and g1(E, '$code') is None:
+                E.set('$code', fs(v[1][:3]))
+            return [Outcome(ret=TOP)]
+
+        def on_return(self, E, fn, val):
+            if fn.name == 'smtp_data' and g1(E, '$qq') is not None:
+                self.rows.append((g1(E, 'G:databytes'), g1(E, '$hops'), g1(E, '$over'), g1(E, '$qq'), g1(E, '$failed', 0), g1(E, '$code'), E.trace.list()))
+    badack = None
+    nrows = 0
+    for db_ in (0, 10):
+        AH = AckHooks()
+        e_ = Engine(db, prog, AH)
+        e_.run(sd, {'G:seenmail': fs(1), 'G:rcptto.len': fs(5), 'G:databytes': fs(db_), 'G:bytestooverflow': fs(0)})
+        rep.count_states(e_.states, e_.transitions)
+        for dbv, hops, over, qq, failed, code, tr in AH.rows:
+            nrows += 1
+            if hops >= maxhops and not failed:
+                want = 'latch'
+            elif qq == '':
+                want = '250'
+            elif hops >= maxhops:
+                want = '554'
+            elif over:
+                want = '552'
+            elif qq == 'D':
+                want = '554'
+            else:
+                want = '451'
+            if (want == 'latch' or code != want) and badack is None:
+                badack = ('databytes=%s, %s hops (limit %s), size overflow=%s, queue verdict %r: the client is told %s (documented %s)' %
+                          (dbv, hops, maxhops, over, qq, code, 'a refusal latched with qmail_fail() before the envelope is sent' if want == 'latch' else want), tr)
+    if nrows < 20 and badack is None:
+        raise AnalysisBroken('smtp_data: only %d reply scenarios explored' % nrows)
+    r3.check(badack is None, 'smtpd:reply-class-per-(hops,size,queue-verdict)', sd.unit + ':smtp_data', badack[0] if badack else '%d scenarios' % nrows, badack[1] if badack else None)
     for pname, unit in (('qmail-qmtpd', 'qmail-qmtpd.c'), ('qmail-qmqpd', 'qmail-qmqpd.c')):
         p = db.program(pname)
         m = p.fn('main', unit)
@@ -450,7 +516,7 @@ def run(ctx):
         for x in m.all_x():
             if x.k == 'asg' and x.args[0].var and x.args[0].var.startswith('L:result') and x.args[1].string is not None:
                 r3.check(x.args[1].string.startswith('D'), '%s:override-is-permanent:%s' % (pname, x.args[1].string[:14]), x.where, 'policy override text %r' % x.args[1].string[:30])
-    r3.expect_min(8)
+    r3.expect_min(6)
 
     # ---------------------------------------------------------------- 4. refusal causes latch before close
     r4 = rep.rule('C07.4-refusals-latch', 'R-ORDER', 'hop limit (>= MAXHOPS = 100), size countdown, bad sender/recipient each call qmail_fail before qmail_close')
